@@ -28,10 +28,41 @@ def load_cases(prop):
     spec = importlib.util.spec_from_file_location('cases_' + prop.lower(), p)
     mod = importlib.util.module_from_spec(spec)
     spec.loader.exec_module(mod)
-    return list(mod.CASES)
+    return list(mod.CASES) + seeded_cases(prop)
+
+
+def seeded_cases(prop):
+    """the independently seeded changes kept under /verif/seeded that this property's check caught when they were
+    collected: each is replayed as a mutant (patch applied to the scratch copy) and must still be caught by one of
+    the rules recorded then"""
+    import json
+    out = []
+    root = os.path.join(VERIF, 'seeded')
+    if not os.path.isdir(root):
+        return out
+    for d in sorted(os.listdir(root)):
+        mp = os.path.join(root, d, 'meta.json')
+        pp = os.path.join(root, d, 'patch.diff')
+        if not (os.path.exists(mp) and os.path.exists(pp)):
+            continue
+        try:
+            meta = json.load(open(mp))
+        except ValueError:
+            continue
+        chk = (meta.get('checks') or {}).get(prop)
+        if not chk or chk.get('exit') != 1 or not chk.get('rules'):
+            continue
+        out.append({'id': 'seed-' + d, 'patch': pp, 'expect': list(chk['rules'])})
+    return out
 
 
 def _apply(root, case):
+    if case.get('patch'):
+        import subprocess
+        r = subprocess.run(['patch', '-p1', '-s', '-f', '--no-backup-if-mismatch', '-d', root, '-i', case['patch']], capture_output=True, text=True)
+        if r.returncode != 0:
+            return 'not-applicable'     # the tree has moved on under the seeded patch
+        return None
     edits = case.get('edits') or [(case['file'], case['old'], case['new'])]
     for file, old, new in edits:
         path = os.path.join(root, file)
